@@ -202,17 +202,17 @@ class FakeSelect:
         rig.select_calls += 1
         if rig.select_calls > 2000:
             raise Spin()
-        first = not rig.hooks_fired
-        rig.hooks_fired = True
-        if first:
+        if not rig.hooks_fired:             # first select of this request: "between the queue check and the wait"
+            rig.hooks_fired = True
             for ph, op in rig.hooks:
                 if ph == "entry":
                     rig.inject(op, during=True)
         ready = _real_select.select(r, [], [], 0)[0]
         if ready:
             return ready, [], []
-        blocked = [op for ph, op in rig.hooks if ph == "blocked"] if first else []
-        if blocked and timeout != 0:
+        blocked = [] if rig.blocked_fired or timeout == 0 else [op for ph, op in rig.hooks if ph == "blocked"]
+        if blocked:                         # the request is blocked now: part of the waiting time passes, then the injection happens
+            rig.blocked_fired = True
             dt = timeout / 2 if timeout is not None else 1.0
             rig.now += dt
             for op in blocked:
@@ -281,6 +281,7 @@ class Rig:
         self.model = Model()
         self.req_no = 0
         self.hooks, self.hooks_fired, self.select_calls, self.first_read = [], True, 0, None
+        self.blocked_fired = True
         self.reads = []
         self.read_mid_char = False
         self.serial = 0
@@ -394,6 +395,8 @@ class Rig:
         if k in ("bytes", "burst"):
             self.arrive(material(op))
         elif k == "unget":
+            if m.handed > 0 and m.kernel() > 0:
+                return      # the Input's last read may have ended inside a keypress: bytes "read by somebody else" cannot sit there
             data = material(op)
             self.inp.unget_bytes(data)
             m.bytes[m.handed:m.handed] = data
@@ -438,6 +441,7 @@ class Rig:
         self.req_no += 1
         self.evaluated_requests += 1
         self.hooks, self.hooks_fired, self.select_calls, self.first_read = [tuple(h) for h in hooks], False, 0, None
+        self.blocked_fired = False
         t0 = self.now
         sched_seen = bool(m.sched)
         try:
@@ -452,7 +456,7 @@ class Rig:
             outcome = ("raised", e)
         except Exception as e:
             outcome = ("raised", e)
-        self.hooks, self.hooks_fired = [], True
+        self.hooks, self.hooks_fired, self.blocked_fired = [], True, True
         return self.judge(timeout, outcome, t0, self.now, sched_seen)
 
     def drain(self):
@@ -598,8 +602,9 @@ def run_history(case):
             f = rig.drain()
         if f:
             clause, detail, extra = f
+            nb = bytes(rig.model.bytes[:2])
             extra = dict(extra, equal_times=rig.model.equal_times(), read_ended_mid_char=bool(rig.read_mid_char),
-                         split=case.get("split", ""))
+                         split=case.get("split", ""), esc_then_nonascii=(len(nb) == 2 and nb[0] == 0x1B and nb[1] >= 0x80))
             return [(clause, detail, extra)], rig.evaluated_requests
         return [], rig.evaluated_requests
 
